@@ -100,7 +100,10 @@ def samplerSE (S : SSem K D R) (lik prior op : Op K D) (startFromZero fi : Bool)
       let inv := S.inv (den S.toSem op TIMES)          -- CG solves (likelihood + prior) x = b
       if startFromZero then
         match sampler S op false with
-        | .ok l => .ok (l.map fun p => (S.mul inv p.1, p.2))
+        | .ok l =>
+          -- QuadraticEnergy applies `op` (TIMES): `_check_mode` raises when the sum does not advertise it
+          if !checkMode (cap op) TIMES then .error "NotImplementedError" else
+          .ok (l.map fun p => (S.mul inv p.1, p.2))
         | .error e => .error e
       else
         match sampler S prior true with
@@ -108,7 +111,9 @@ def samplerSE (S : SSem K D R) (lik prior op : Op K D) (startFromZero fi : Bool)
         | .ok ls => match sampler S lik false with
           | .error e => .error e
           | .ok ln =>
-            -- b = prior(s) + nj
+            -- b = prior(s) + nj, _grad = likelihood(s) - nj, then CG applies `op`: all in mode TIMES
+            if !checkMode (cap prior) TIMES || !checkMode (cap lik) TIMES || !checkMode (cap op) TIMES then
+              .error "NotImplementedError" else
             .ok ((ls.map fun p => (S.mul inv (S.mul (den S.toSem prior TIMES) p.1), p.2)) ++
                  (ln.map fun p => (S.mul inv p.1, p.2)))
   | .error e => .error e
